@@ -187,12 +187,22 @@ theorem fault_rejected_core (O : Oracles) (w : World) (src : ClassSrc) (f : Faul
     simp only [Fault.applies, Bool.not_eq_true'] at ha
     exact defineClass_error_of_check (mem_checks_const (mem_resolvedFields_last w src n (.const v)))
       (e := .typeErr) (by simp [constCheck, ha])
-  | keysOfMissing n =>
+  | keysOfMissing before m₁ n m₂ after =>
     simp only [Fault.applies, Bool.not_eq_true'] at ha
     refine defineClass_error_of_check (mem_checks_keysOf) (e := .typeErr) ?_
-    show (if (n :: src.keysOf).all (fun k => ((allFieldsOf w src).map (·.1)).contains k) then okU
+    show (if (before ++ (m₁ ++ n :: m₂) :: (after ++ src.keysOf)).all
+            (fun e => e.all fun k => ((allFieldsOf w src).map (·.1)).contains k) then okU
           else .error .typeErr) = _
-    rw [List.all_cons, ha]; rfl
+    have hfalse : (before ++ (m₁ ++ n :: m₂) :: (after ++ src.keysOf)).all
+        (fun e => e.all fun k => ((allFieldsOf w src).map (·.1)).contains k) = false := by
+      cases hall : (before ++ (m₁ ++ n :: m₂) :: (after ++ src.keysOf)).all
+          (fun e => e.all fun k => ((allFieldsOf w src).map (·.1)).contains k) with
+      | false => rfl
+      | true =>
+        have h1 := (List.all_eq_true.mp hall) (m₁ ++ n :: m₂) (by simp)
+        have h2 := (List.all_eq_true.mp h1) n (by simp)
+        rw [ha] at h2; cases h2
+    rw [hfalse]; rfl
   | unknownAttr n a =>
     simp only [Fault.applies, Bool.and_eq_true, Bool.not_eq_true'] at ha
     obtain ⟨⟨⟨⟨h1, h2⟩, h3⟩, h4⟩, h5⟩ := ha
